@@ -99,4 +99,7 @@ contract(G + "join_and_sync.<cleanup_rejoin_d>")(type('_', (), dict(
 contract(G + "join_and_sync.<rejoin_d_errback>")(type('_', (), dict(
     sig="(result: Ref_Failure) -> None", props=["C17"], entry_point=True, closure_env={"self": "Ref_Coordinator"},
     # C17 (fix 9b13ecc): a Kafka error that escaped the join/sync sequence is classified like any other failure
-    ensures={"escaped-kafka-errors-are-handled[C17]": "implies(exc_is(p_result, 'KafkaError'), n_calls('rejoin_after_error') == 1)"})))
+    ensures={"escaped-kafka-errors-are-handled[C17]": "implies(exc_is(p_result, 'KafkaError'), n_calls('rejoin_after_error') == 1)",
+             # the property also wants a non-Kafka error to surface on start()'s Deferred: the code only logs it
+             # (pinned by test_group.py::test_join_fatal_exception) -> KNOWN_FINDINGS.txt
+             "escaped-non-kafka-errors-surface[C17]": "implies(not exc_is(p_result, 'KafkaError'), n_calls('rejoin_after_error') == 1)"})))
